@@ -21,6 +21,8 @@ def run(ctx, db, tier):
     atomic.check_roles(ctx, db, 'C03.R1-memory-order-roles', floor=30)
     refused_subscribe_acquires(ctx, db, 'C03.R1-refused-subscribe-acquires')
     free_path_acquires_first(ctx, db, 'C03.R1-free-path-acquires-first')
+    from . import C01
+    C01.claim_rmw(ctx, db, 'C03.single-writer-election')
     summ = publish.Summaries(db)
     publish.check_no_touch(ctx, db, 'C03.R2-no-touch-after-publish', summ, per_instance=per_inst, floor=12)
     la = locks.check_guarded(ctx, db, 'C03.R3-lock-discipline', GUARDED, GUARDED_CLASSES, per_instance=per_inst, floor=40)
@@ -33,14 +35,14 @@ def refused_subscribe_acquires(ctx, db, rid):
     from ..core import Tracer, live
     ctx.rule(rid, 'PATHS+ATOMIC', 'every path of subscribe_check_ready that refuses the registration passes through an acquire (fence, or CAS failure order >= acquire): '
              'the refused subscriber goes on to read the result')
-    T = Tracer(db, depth=0)
+    from ..rules import htracer, ret_const
+    T = htracer(db)
     for f in db.need('cocls::awaiter::subscribe_check_ready'):
         trs = [t for t in T.traces(f) if live(t)]
         ctx.paths(rid, len(trs))
         bad = None; n = 0
         for tr in trs:
-            rets = [it for it in tr if it.k == 'return']
-            if not rets or rets[-1].get('const') != 0:
+            if ret_const(tr) != 0:
                 continue
             n += 1
             ok = False
